@@ -61,44 +61,6 @@ the consumer will find when it later takes the lock); plus the per-program-count
 and the two history facts used below. -/
 theorem conc_invariant {s : St} (h : Reach s) : Inv s := inv_reach h
 
-/-- helper for the non-vacuity examples: run a schedule (`inl b` = a producer step, with `b` the
-argument if it is a new call; `inr c` = a consumer step) -/
-def sched : List (Bytes ⊕ Call) → St → Option St
-  | [], s => some s
-  | .inl b :: r, s => (stepP s b).bind (sched r)
-  | .inr c :: r, s => (stepC s c).bind (sched r)
-
-theorem reach_sched : ∀ (l : List (Bytes ⊕ Call)) (s s' : St), Reach s → sched l s = some s' → Reach s' := by
-  intro l
-  induction l with
-  | nil => intro s s' h e; simp [sched] at e; exact e ▸ h
-  | cons x xs ih =>
-    intro s s' h e
-    cases x with
-    | inl b =>
-      simp only [sched] at e
-      cases hp : stepP s b with
-      | none => simp [hp] at e
-      | some s1 => simp [hp] at e; exact ih s1 s' (.step h (.p b hp)) e
-    | inr c =>
-      simp only [sched] at e
-      cases hc : stepC s c with
-      | none => simp [hc] at e
-      | some s1 => simp [hc] at e; exact ih s1 s' (.step h (.c c hc)) e
-
-/-- a reachable state in the middle of things: the producer has enqueued `[1]`, is inside
-`Enqueue([2])` holding the lock with the chunk appended but the depth not yet republished, while
-the consumer has read the (stale) depth token and is about to put it back. -/
-def midState : St :=
-  { queue := [[1], [2]], depth := 2, token := none, lock := some .prod, ppc := .recv,
-    cpc := .gSend .dq 1, produced := [[1], [2]], clog := [], rets := [] }
-
-theorem midState_reach : Reach midState := by
-  refine reach_sched
-    ((List.replicate 7 (.inl [1])) ++ [.inl [2], .inl [2], .inr .dequeue, .inr .dequeue, .inl [2], .inl [2]])
-    Conc.init _ .init ?_
-  decide
-
 /-- Between operations of both goroutines (lock free, token in the channel) the struct is
 consistent: `depth` and the published depth are the number of chunks held. -/
 theorem conc_quiescent {s : St} (h : Reach s) (hl : s.lock = none) :
@@ -176,6 +138,24 @@ theorem conc_busy_step_reach {s s' : St} (h : Reach s) (hs : BusyStep s s') : Re
   | p b _ hp => exact .step h (.p b hp)
   | c call _ hc => exact .step h (.c call hc)
 
+example : ∃ s', BusyStep midState s' := conc_no_deadlock midState_reach (Or.inl rfl)
+
+/-- Every maximal run without new calls ends with both calls returned: from any reachable state
+a run of busy steps that cannot be extended (`∀ s'', ¬ BusyStep s' s''`) ends with both goroutines
+idle (runs are finite by `conc_busy_step_decreases`, so such an end always exists). -/
+theorem conc_calls_complete {s s' : St} (h : Reach s) (hr : BusySteps s s')
+    (hmax : ∀ s'', ¬ BusyStep s' s'') : s'.ppc = .idle ∧ s'.cpc = .idle := by
+  induction hr with
+  | refl s =>
+    have hnp := conc_no_panic h
+    have hb : ¬ (s.ppc.busy = true ∨ s.cpc.busy = true) := fun hb =>
+      let ⟨s'', hs⟩ := conc_no_deadlock h hb
+      hmax s'' hs
+    constructor
+    · cases hp : s.ppc <;> simp [hp, PPc.busy] at hb ⊢
+    · cases hc : s.cpc <;> simp [hc, CPc.busy] at hb hnp ⊢
+  | step hs _ ih => exact ih (conc_busy_step_reach h hs) hmax
+
 /-- FIFO, lossless, all schedules. In every reachable state, reading the stream of produced chunks
 (`produced`, in `Enqueue` order) with a push-back stack according to the consumer's completed
 calls (`rets`, in call order: a `Dequeue` result takes one chunk, a `DequeueAll` result takes its
@@ -210,18 +190,6 @@ theorem conc_fifo_bytes {s : St} (h : Reach s) (hc : s.cpc = .idle)
     (hr : ∀ r ∈ s.rets, r.isReq = false) :
     outBytes s.rets ++ s.queue.flatten = s.produced.flatten := by
   rw [← conc_fifo_no_putback h hc hr, outBytes_chunks, List.flatten_append]
-
-/-- a reachable state with the consumer idle after a `Dequeue` that returned the first chunk, no
-put-backs, the producer between calls -/
-def afterState : St :=
-  { queue := [[2]], depth := 1, token := some 1, lock := none, ppc := .idle, cpc := .idle,
-    produced := [[1], [2]], clog := [.got [1]], rets := [.deq (some [1])] }
-
-theorem afterState_reach : Reach afterState := by
-  refine reach_sched
-    ((List.replicate 7 (.inl [1])) ++ (List.replicate 7 (.inl [2])) ++ List.replicate 11 (.inr .dequeue))
-    Conc.init _ .init ?_
-  decide
 
 example : Reach afterState ∧ afterState.cpc = .idle ∧ ∀ r ∈ afterState.rets, r.isReq = false :=
   ⟨afterState_reach, rfl, by decide⟩
